@@ -65,6 +65,10 @@ func checkC09(p *Prog, r *Report) {
 	rRoot := r.Rule("roots-written-once", "Server.fdir and Server.tmplf are written only in New")
 	rRoute := r.Rule("route-table", "shell routes are constant, unconditional and never file-serving; only the catch-all serves files, and only when Server.fdir is set")
 	rNote := r.Rule("notice-first", "the operator notice dominates every use of the response writer in the file handler")
+	/* Every file request is reported — each by its own notice: the text of
+	a notice is built in memory of the call which sends it (handlers run
+	concurrently; C10's rule, under this property's reporting clause). */
+	checkC10Scratch(p, r, r.Rule("notice-text-owned", "the text of a request's notice is built in memory of the call which sends it, never in a buffer shared between concurrent requests"))
 
 	fdir := p.Field(hsrvPkg, "Server", "fdir")
 	tmplf := p.Field(hsrvPkg, "Server", "tmplf")
@@ -289,6 +293,12 @@ func checkC09(p *Prog, r *Report) {
 		if !have[pat] {
 			rRoute.Bad("route "+pat, token.NoPos, "shell route %q is not registered", pat)
 		}
+	}
+	/* The bidirectional endpoint answers for its whole subtree: without the
+	subtree pattern "/io/…" falls through to the catch-all, and a directory
+	named io in the served tree answers instead of the shell endpoint. */
+	if have["/io"] && !have["/io/"] {
+		rRoute.Bad("route /io/", token.NoPos, "the subtree pattern \"/io/\" is not registered: requests below /io/ fall through to the file-serving catch-all (a directory named io shadows the shell endpoint), or get 404 instead of a shell")
 	}
 
 	/* Notice first. */
